@@ -3,7 +3,7 @@ import Logrange.Model.PipeLts
 import Logrange.Generated.C10
 /-! Model driver for C10 (pipe LTS). Requests (byte strings hex, `-` = empty; an event is `<ts>:<msg>:<fields>`):
 
-* `reset <n> <others 0|1> <flt>`   — `flt` = `true` | `contains:<hex>` | `ncontains:<hex>` | `tsgt:<int>` | `tslt:<int>`
+* `reset <n> <others 0|1> <flt>`   — `flt` = `true` | `contains:<hex>` | `ncontains:<hex>` | `tsgt:<int>` | `tslt:<int>` | `fldeq:<k>:<v>` | `fldne:<k>:<v>` (on the event's OWN fields, rendered k=v,k=v)
 * `src <s> <listens 0|1> <prov>`   — tags of source `s` satisfy the source condition; its provenance fields
 * `write <s> <ev>*`, `enqueue <i>`, `notify`, `wopen <s>`, `wcopy <s> <k>`, `wsave <s>`, `wtimeout <s>`, `wdone <s>`,
   `create`, `delete`, `shutdown`, `halt`, `restart`  → `ok` | `disabled`
@@ -27,8 +27,25 @@ def isInfix (needle : Bytes) : Bytes → Bool
   | [] => needle.isEmpty
   | x :: xs => needle.isPrefixOf (x :: xs) || isInfix needle xs
 
+def splitOnByte (sep : UInt8) (b : Bytes) : List Bytes :=
+  (b.foldr (fun x acc => if x == sep then [] :: acc else match acc with
+    | [] => [[x]]
+    | h :: t => (x :: h) :: t) [[]])
+
+/-- value of the first pair named `k` in a field list rendered as `k=v,k=v` (the harness' values need no quoting) -/
+def kvValue (fields k : Bytes) : Bytes :=
+  let pairs := (splitOnByte 44 fields).filterMap (fun p =>
+    match p.span (· != 61) with
+    | (key, _ :: v) => some (key, v)
+    | _ => none)
+  match pairs.find? (fun kv => kv.1 == k) with
+  | some kv => kv.2
+  | none => []
+
 def parseFlt (s : String) : Ev → Bool :=
   match s.splitOn ":" with
+  | ["fldeq", k, v] => fun e => kvValue e.fields (unhex k) == unhex v
+  | ["fldne", k, v] => fun e => kvValue e.fields (unhex k) != unhex v
   | ["contains", h] => fun e => isInfix (unhex h) e.msg
   | ["ncontains", h] => fun e => !isInfix (unhex h) e.msg
   | ["tsgt", v] => fun e => decide (e.ts > v.toInt?.getD 0)
